@@ -16,6 +16,10 @@ import (
 )
 
 func cmdDump(args []string) int {
+	if len(args) == 0 {
+		fmt.Println("usage: jsv dump <what> [args]")
+		return 2
+	}
 	p, err := core.Load("/repo", "")
 	if err != nil {
 		fmt.Println(err)
